@@ -90,7 +90,7 @@ class PCABook(Machine):
                        "float_selects_all", "trim_to_1", "trim_after_trim", "noop_setter", "copy_diverged",
                        "out_of_range_int", "out_of_range_float", "all_kept_reconstruct_exact",
                        "object_backed", "uncentred", "max_n_components_at_build", "tiny_data_scale", "huge_data_scale", "integer_dtype_data", "mean_much_larger_than_spread",
-                       "earlier_results_still_valid")
+                       "earlier_results_still_valid", "fraction_equal_to_an_own_cumulative_ratio")
 
     @classmethod
     def swarm(cls, rng, tier):
@@ -105,6 +105,11 @@ class PCABook(Machine):
         else:
             d = None
         n = rng.randint(3, 14)
+        if kind == "vector" and rng.random() < 0.05:
+            # very wide data (a few samples of a thousand features and more): the blocked in-place products of the
+            # n <= d path run over their block boundaries
+            d = rng.choice([1000, 2000, 999, 1001, 3000])
+            n = rng.randint(3, 6)
         return {"kind": kind, "centred": centred, "n": n, "d": d, "seed": rng.getrandbits(32),
                 "inplace": rng.random() < 0.5, "max_n": rng.choice([0, 0, 0, 1, 2, 3, 5]),
                 "scale_exp": rng.choice([-6, -3, 0, 0, 0, 3, 6]), "int_data": int(rng.random() < 0.15), "offset_exp": rng.choice([0, 0, 0, 3, 5]),
@@ -116,7 +121,7 @@ class PCABook(Machine):
         if r < 0.28:
             return {"op": "set_int", "m": rng.randrange(3), "v": rng.randrange(-1, 14)}
         if r < 0.52:
-            return {"op": "set_float", "m": rng.randrange(3), "j": rng.randrange(0, 14), "bad": rng.choice([0, 0, 0, 0, 1, 2, 3])}
+            return {"op": "set_float", "m": rng.randrange(3), "j": rng.randrange(0, 14), "bad": rng.choice([0, 0, 0, 0, 1, 2, 3, 4])}
         if r < 0.72:
             return {"op": "trim", "m": rng.randrange(3), "v": rng.randrange(0, 14), "none": rng.randrange(3)}
         if r < 0.82:
@@ -258,6 +263,24 @@ class PCABook(Machine):
             f = min(1.5, kept_ratio + 0.5 * (1.0 - kept_ratio) + 1e-3)
             if e.k == self.r:
                 f = 1.2
+        elif bad == 4:
+            # "keep what the first j+1 components explain": the fraction is one of the model's OWN cumulative ratios,
+            # read back through the public accessor, so the comparison inside the setter is an exact tie
+            try:
+                cr = np.asarray(e.m.eigenvalues_cumulative_ratio(), dtype=float)
+            except Exception as ex:
+                ctx.fail("counts", "query_raised", repr(ex))
+                return
+            if cr.size < 1:
+                return
+            j = op["j"] % cr.size
+            if j + 1 >= e.k:
+                # (the ratio of ALL kept components is compared with a separately computed total - sum() against
+                # cumsum()[-1], equal only up to rounding: that boundary is a numerical cliff, not a tie)
+                return
+            f = float(cr[j])
+            bad = 0
+            ctx.probe("fraction_equal_to_an_own_cumulative_ratio")
         else:
             j = op["j"] % e.k          # want exactly j+1 components
             lo = float(self.cum[j - 1]) if j > 0 else 0.0
